@@ -96,6 +96,17 @@ var newMoonDay = ev.Register(&ev.P[monthCase]{
 			return nil
 		}
 		m := ms[c.I]
+		if c.I == 0 { // once per year: the reported leap month is the year's own leap entry
+			leap := 0
+			for _, x := range ms {
+				if x.M < 0 {
+					leap = -x.M
+				}
+			}
+			if g := calendar.NewLunarYear(c.Y).GetLeapMonth(); g != leap {
+				return fmt.Errorf("lunar year %d: GetLeapMonth() = %d but the year's own months have leap month %d", c.Y, g, leap)
+			}
+		}
 		l := newMoonNear(float64(m.First))
 		day, dist := dayOf(l)
 		cy, _, _ := ref.FromJDN(m.First)
